@@ -258,6 +258,10 @@ def judge(res, r, ff, P, CA, dist, partners, wit, names):
                 ln = line_of[id(sg)]
                 if abs(ln["q"] - row_cyx[0]) > 6e-5 or abs(ln["r"] - row_cyx[1]) > 6e-5:
                     problems.append(f"SG written with q={ln['qs']} r={ln['rs']}, bridged-cysteine row is {row_cyx[:2]}")
+            if row_cyx and line_of and id(sg) not in line_of:
+                # the force field has a bridged-cysteine row for this chain position, yet the sulfur is not written
+                problems.append(f"SG is not written at all although {ff} has the row {_term(residue, 'CYX')}/SG = "
+                                f"{row_cyx[:2]}")
             if problems:
                 res.violate("bridge/not-detected-or-asymmetric", f"SG-SG = {dist[(max(i, ps[0]), min(i, ps[0]))]:.4f} < "
                             f"2.5 but {residue}: " + "; ".join(problems), **w)
